@@ -23,6 +23,57 @@ from .pymini import Unsupported
 
 HEADER = ("From Coq Require Import ZArith List String.\n"
           "From Bardic Require Import PyStr Value Compiled Engine Codec SaveLoad SaveLoadCheck.")
+HEADER_DOC = R.HEADER + "\nFrom Bardic Require Import Codec SaveLoad SaveOutEnc SaveDocCheck."
+
+
+def metadata_block(rm):
+    """An @metadata block for the head of a generated story (title / version / story_id feed story_name / story_version /
+    story_id of the save document; 'unknown' when absent).  Own random stream: the story generator's draws are unchanged."""
+    keys = []
+    if rm.random() < 0.6:
+        keys.append(("title", rm.choice(["The Cave", "Demo", "unknown", "A: B"])))
+    if rm.random() < 0.5:
+        keys.append(("version", rm.choice(["1.0", "0.3.1", "2", "beta"])))
+    if rm.random() < 0.4:
+        keys.append(("story_id", rm.choice(["cave-01", "x", "unknown"])))
+    if rm.random() < 0.3:
+        keys.append(("author", "nobody"))
+    rm.shuffle(keys)
+    if not keys and rm.random() < 0.7:
+        return ""
+    return "@metadata\n" + "".join(f"  {k}: {v}\n" for k, v in keys) + "\n"
+
+
+def jdoc(x):
+    """The raw dict save_state() returned as a Codec.json term, keys in the dict's own order."""
+    if x is None:
+        return "JNull"
+    if isinstance(x, bool):
+        return "(JBool true)" if x else "(JBool false)"
+    if isinstance(x, int):
+        return f"(JInt ({x})%Z)"
+    if isinstance(x, str):
+        return f"(JStr {coq_str(R.S.check_ascii(x))})"
+    if isinstance(x, list):
+        return "(JList " + coq_list(jdoc(y) for y in x) + ")"
+    if isinstance(x, dict):
+        if not all(isinstance(k, str) for k in x):
+            raise Unsupported("non-string key")
+        return "(JObj " + coq_list(f"({coq_str(R.S.check_ascii(k))}, {jdoc(y)})" for k, y in x.items()) + ")"
+    raise Unsupported(f"save document holds a {type(x).__name__}")
+
+
+def save_doc_term(story, recs, doc):
+    """scase term for Engine/SaveDocCheck.v: the model's save document after the same history against `doc`."""
+    if not all(isinstance(v, str) for v in (story.get("metadata") or {}).values()):
+        raise Unsupported("metadata value that is not a string")
+    tb = R.S.Tables()
+    st = R.S.story(story, tb)
+    ops = coq_list(R.op_term(x["op"], tb) for x in recs[1:])
+    d = copy.deepcopy(doc)
+    if isinstance(d.get("current_output"), dict) and isinstance(d["current_output"].get("content"), str):
+        d["current_output"]["content"] = R.canon_content(d["current_output"]["content"])   # {ERROR: msg} -> {ERROR}, as in every view
+    return f"({st}, {tb.term()}, {ops}, {coq_str(doc['timestamp'])}, {jdoc(d)})"
 
 
 def clean(v):
@@ -102,13 +153,15 @@ def run(tier: str, seed: int) -> int:
     stats = {"save_points": 0, "continuation_steps": 0, "malformed": {}, "accepted_mutants": 0, "compile_failed": 0,
              "mech": {}}
     vterms, vmeta = [], []
+    sterms, smeta = [], []
+    stats["save_documents"] = {"compared": 0, "unsupported": 0, "with_metadata_block": 0}
     prof = dict(hooks=0.6, join=0.6, params=0.5, jumps=0.5, inplace=0.6, one_time=0.5, faults=0.05)
     cls = None
     for i in range(n_cases):
         sub = rng.randrange(10 ** 9)
         r = random.Random(sub)
         g = G.Gen(r, G.Profile(**prof))
-        src = g.source()
+        src = metadata_block(random.Random(sub ^ 0x5A5A5A)) + g.source()
         try:
             story = R.compile_story(src)
         except Exception:
@@ -134,6 +187,13 @@ def run(tier: str, seed: int) -> int:
                 report(f"save-raised-{type(e).__name__}", f"save_state() raised {e!r}")
                 continue
             after = R.view(eng)
+            # the document itself against the model's (all 12 keys in order, Engine/SaveDocCheck.v)
+            try:
+                sterms.append(save_doc_term(story, recs, d1))
+                smeta.append((sub, src, recs, d1))
+                stats["save_documents"]["with_metadata_block"] += 1 if story.get("metadata") else 0
+            except (Unsupported, ValueError):
+                stats["save_documents"]["unsupported"] += 1
             if clean(before) != clean(after):
                 report("save-changed-state", f"save_state() changed {[k for k in before if before[k] != after[k]]}")
             if strip_volatile(d1) != strip_volatile(d2):
@@ -280,6 +340,18 @@ def run(tier: str, seed: int) -> int:
                              {"document": md, "passages": names, "tag": tag})
         else:
             chk.disagree("valid_doc-coqc", "a case shard failed to evaluate", {"log": log[-1500:]})
+    # ---- the save document itself: model's save_json after the same history vs the dict save_state() returned ----
+    stats["save_documents"]["compared"] = len(sterms)
+    bad, shown, log = C.run_coq_cases(chk.scratch, HEADER_DOC, sterms, "scase", "scase_bad", shard=12, show_fn="scase_show")
+    for b in bad:
+        if isinstance(b, int):
+            sub_, src_, recs_, d_ = smeta[b]
+            chk.disagree("save-document", "the document of save_state() differs from the model's save_json after the same history "
+                         "(keys_ok, top_ok, output_ok, model's output without choices, model's top level): " + (shown.get(b) or "")[:2500],
+                         {"subseed": sub_, "story_source": src_, "ops": [x["op"] for x in recs_[1:]],
+                          "document": {k: v for k, v in d_.items()}})
+        else:
+            chk.disagree("save-document-coqc", "a case shard failed to evaluate", {"log": log[-1500:]})
     # ---- "after a JSON round trip": real save documents and compiled stories as TEXT against Codec/JsonText.v ----
     from . import jsontext_tie
     stats["json_text"] = jsontext_tie.phase(chk, random.Random(rng.randrange(10 ** 9)), 20 if tier == "quick" else 200,
@@ -334,7 +406,9 @@ def run(tier: str, seed: int) -> int:
     chk.notes["input_distribution"] = stats
     chk.assumptions = ["the displayed output's JSON form is decoded by plain data copy (out_enc/out_dec of the theorems)",
                        "variables are in the value codec's supported domain (C06)",
-                       "timestamps and story metadata fields of the document are not compared"]
+                       "the timestamp of the document is a parameter of the model (the value the implementation wrote is handed in)",
+                       "in the document comparison used_choices is compared as a set (model: order of use, engine: sorted) and the "
+                       "compiled choice dicts inside current_output are not compared (optional keys, Engine/SaveOutEnc.v)"]
     return chk.finish(props, C.BASE_TRUST + ["modelled: save_state/load_state (Engine/SaveLoad.v) over the value codec (Codec/Codec.v)"],
                       "make -C /verif/coq && coqc -Q /verif/coq Bardic /verif/coq/Props/C05.v")
 
